@@ -34,9 +34,10 @@ Example C07_ex_age_missing :
   let b := mkbundle (b_primary ex_valid) [mkcanonical 1 1 0 CrcNo (Data [])] in validate b = [VAgeMissing] /\ rules b = false.
 Proof. vm_compute. split; reflexivity. Qed.
 
-(* the exhaustive tie (Gen/Tbl_<NAME>.v is rewritten from the compiled crate on every run): the two flag validations of the model ARE
-   the library's, on every u8 block flag word and on every combination of the 14 bits the bundle flag validation looks at, outside
-   the property's don't-care masks - checked by the kernel over all 256 + 16384 rows *)
+(* the exhaustive tie (Gen/Tbl_<NAME>.v are rewritten from the compiled crate on every run): Bundle::validate of the library on an otherwise
+   valid bundle carrying block control flags w (every u8) resp. bundle control flags made of every combination of the 14 bits the
+   validation looks at, outside the property's don't-care masks, accepts exactly when the model's validate does - checked by the kernel
+   over all 256 + 16384 rows (flags_bundle: Proofs/TieFlags.v) *)
 Theorem C07_tie_block_flags : forall w, w < 256 -> N.land w 240 <> 240 -> code_block_flags w = [ch (block_flags_ok w)].
 Proof. exact tie_block_flags. Qed.
 Theorem C07_tie_bundle_flags : forall i, i < 16384 -> N.land (word_of Gen.Tbl_BUNDLEFLAGS.T_BUNDLE_BITS i) 57880 <> 57880 ->
@@ -49,11 +50,6 @@ Proof. exact tie_bundle_flags. Qed.
    rule list of the property text holds *)
 Theorem C07_tie_rule_space : forall i, i < 223448 -> code_rule_space i = [ch (is_valid (rs_bundle i))].
 Proof. exact tie_rule_space. Qed.
-(* these are the expressions Bundle::validate's model uses *)
-Example C07_tie_is_about_validate : forall c,
-  canonical_validate c = (if block_flags_ok (c_flags c) then [] else [VBlockFlags]) ++ (if extension_valid c then [] else [VBlockData]).
-Proof. intros c. unfold canonical_validate, block_flags_ok. destruct (block_flag _ _); reflexivity. Qed.
-
 Check C07_validate_iff : forall b, decodable_shape b = true -> reserved_clear b = true -> (validate b = [] <-> rules b = true).
 Print Assumptions C07_decoded_shape.
 Print Assumptions C07_validate_iff.
